@@ -253,7 +253,7 @@ def assign_case(rng):
     src = head + stmt + closing + rng.choice(["", "\n", "\n.z = 1\n", " # " + rand_uni(rng)])
     tend = tstart + len(text.encode("utf-8"))
     return {"kind": "assign", "src": h(src), "segs": [{"f": h(s)} for s in rootsegs] + segs,
-            "assign": {"tstart": tstart, "tend": tend}}
+            "assign": {"tstart": tstart, "tend": tend, "nsegs": len(rootsegs) + len(segs)}}
 
 
 def gen_cases(run, n):
@@ -326,6 +326,8 @@ def to_coq(c, o):
     comp = {"ok": "CompOk", "err": "CompErr", "panic": "CompPanic"}[o["compile"]]
     asg = "None"
     if "assign" in c:
+        if len(c["segs"]) != c["assign"]["nsegs"] or len(o.get("seg_lens", [])) != c["assign"]["nsegs"]:
+            raise ValueError("inconsistent assignment case (a shrinking step dropped a segment)")
         segs = []
         for s, n in zip(c["segs"], o["seg_lens"]):
             segs.append(("SegField %d" if "f" in s else "SegIndex %d") % n)
